@@ -118,6 +118,15 @@ class ETagMatcher:
         return ", ".join(map('"%s"'.__mod__, self.etags))
 
 
+# asctime-date = day-name SP date3 SP time-of-day SP year
+# date3        = month SP ( 2DIGIT / ( SP 1DIGIT ) )
+_rx_asctime = re.compile(
+    r"(?:Mon|Tue|Wed|Thu|Fri|Sat|Sun) "
+    r"(?:Jan|Feb|Mar|Apr|May|Jun|Jul|Aug|Sep|Oct|Nov|Dec) "
+    r"(?:[0-9][0-9]| [0-9]) [0-9][0-9]:[0-9][0-9]:[0-9][0-9] [0-9]{4}"
+)
+
+
 class IfRange:
     def __init__(self, etag):
         self.etag = etag
@@ -132,10 +141,9 @@ class IfRange:
         elif value.endswith(" GMT"):
             # Must be a date
             return IfRangeDate(parse_date(value))
-        elif not value.startswith(('"', 'W/"')):
-            # Not an entity-tag: it may be the obsolete asctime form of
-            # HTTP-date (RFC 7231 section 7.1.1.1), which carries no zone
-            # and is in GMT by definition
+        elif _rx_asctime.fullmatch(value):
+            # The obsolete asctime form of HTTP-date (RFC 7231 section
+            # 7.1.1.1), which carries no zone and is in GMT by definition
             date = parse_date(value + " GMT")
 
             if date is not None:
